@@ -28,6 +28,12 @@ struct Credit {
     sent: BTreeMap<u64, u64>,
     sent_total: u64,
     init: bool,
+    /// initial per-stream limit / stream counts in force (change when a 0-RTT connection moves
+    /// from remembered to newly negotiated parameters)
+    stream_window_init: u64,
+    streams_init: [u64; 2],
+    switched: bool,
+    early_seen: bool,
 }
 
 pub struct CreditOracle {
@@ -37,11 +43,47 @@ pub struct CreditOracle {
     credit: BTreeMap<u32, Credit>,
     pub frames_checked: u64,
     pub tight: u64,
+    /// C17: (client connection, the server parameters negotiated for it, exempt from judgement):
+    /// its 0-RTT packets are bound by `server` (remembered), everything later by these
+    pub second: Option<(u32, TKnobs, bool)>,
+    pub switches: u64,
 }
 
 impl CreditOracle {
     pub fn new(server: TKnobs, client: TKnobs) -> Self {
-        Self { server, client, seen: 0, credit: BTreeMap::new(), frames_checked: 0, tight: 0 }
+        Self { server, client, seen: 0, credit: BTreeMap::new(), frames_checked: 0, tight: 0, second: None, switches: 0 }
+    }
+
+    fn init_credit(c: &mut Credit, k: &TKnobs) {
+        c.init = true;
+        c.max_data = k.conn_window;
+        c.max_streams = [k.max_bidi, k.max_uni];
+        c.stream_window_init = k.stream_window;
+        c.streams_init = [k.max_bidi, k.max_uni];
+    }
+
+    /// the handshake of a connection that may have sent 0-RTT data completed: the negotiated
+    /// parameters replace the remembered ones (and the ledger starts over after a rejection)
+    fn switch(&mut self, inc: u32, accepted: bool) {
+        let Some((sec, k, _)) = self.second.clone() else { return };
+        if sec != inc {
+            return;
+        }
+        let c = self.credit.entry(inc).or_default();
+        if c.switched {
+            return;
+        }
+        c.switched = true;
+        self.switches += 1;
+        if c.early_seen && accepted {
+            c.max_data = c.max_data.max(k.conn_window);
+            c.max_streams = [c.max_streams[0].max(k.max_bidi), c.max_streams[1].max(k.max_uni)];
+            c.stream_window_init = c.stream_window_init.max(k.stream_window);
+            c.streams_init = [c.streams_init[0].max(k.max_bidi), c.streams_init[1].max(k.max_uni)];
+        } else {
+            *c = Credit { switched: true, ..Default::default() };
+            Self::init_credit(c, &k);
+        }
     }
 
     /// limits the *peer* of a connection on `side` configured
@@ -53,9 +95,8 @@ impl CreditOracle {
         }
     }
 
-    fn stream_limit(&self, c: &Credit, side: Side, id: u64) -> u64 {
-        let init = self.peer_knobs(side).stream_window;
-        c.max_stream_data.get(&id).copied().unwrap_or(0).max(init)
+    fn stream_limit(&self, c: &Credit, _side: Side, id: u64) -> u64 {
+        c.max_stream_data.get(&id).copied().unwrap_or(0).max(c.stream_window_init)
     }
 }
 
@@ -72,12 +113,30 @@ impl Oracle for CreditOracle {
                 continue;
             }
             let side = w.conns[p.inc as usize].side;
+            if let Some((sec, k2, skip)) = &self.second {
+                if *sec == p.inc {
+                    if *skip {
+                        continue;
+                    }
+                    if p.space == Space::ZeroRtt {
+                        self.credit.entry(p.inc).or_default().early_seen = true;
+                    } else if !self.credit.get(&p.inc).is_some_and(|c| c.switched) {
+                        if self.credit.get(&p.inc).is_some_and(|c| c.early_seen) {
+                            let accepted = w.conns[p.inc as usize].conn.accepted_0rtt();
+                            self.switch(p.inc, accepted);
+                        } else {
+                            let k2 = k2.clone();
+                            let c = self.credit.entry(p.inc).or_default();
+                            c.switched = true;
+                            Self::init_credit(c, &k2);
+                        }
+                    }
+                }
+            }
             let k = self.peer_knobs(side).clone();
             let c = self.credit.entry(p.inc).or_default();
             if !c.init {
-                c.init = true;
-                c.max_data = k.conn_window;
-                c.max_streams = [k.max_bidi, k.max_uni];
+                Self::init_credit(c, &k);
             }
             let (frames, _) = wire::frames(&p.payload);
             if !p.enc {
@@ -148,7 +207,16 @@ impl Oracle for CreditOracle {
             return;
         }
         // application view: bytes accepted by write() never exceed the credit that has arrived
+        if let Some((sec, _, skip)) = self.second.clone() {
+            if !skip && wl.sides.get(&sec).is_some_and(|s| s.connected) && self.credit.get(&sec).is_some_and(|c| c.early_seen && !c.switched) {
+                let accepted = w.conns[sec as usize].conn.accepted_0rtt();
+                self.switch(sec, accepted);
+            }
+        }
         for (inc, s) in &wl.sides {
+            if self.second.as_ref().is_some_and(|(sec, _, skip)| sec == inc && *skip) {
+                continue;
+            }
             let Some(c) = self.credit.get(inc) else { continue };
             let side = if s.is_client { Side::Client } else { Side::Server };
             let mut total = 0;
@@ -178,7 +246,7 @@ impl Oracle for CreditOracle {
             for dir in 0..2 {
                 if s.open_blocked[dir] {
                     let opened = s.sends.keys().filter(|sid| ((**sid & 1 == 0) == s.is_client) && ((**sid & 2 == 0) == (dir == 0))).count() as u64;
-                    let init = if dir == 0 { self.peer_knobs(side).max_bidi } else { self.peer_knobs(side).max_uni };
+                    let init = c.streams_init[dir];
                     if opened < init && s.connected && s.lost.is_none() && !s.closed_locally {
                         w.violate("open-refused-with-credit-left", format!("inc{} open({}) returned None after only {} streams although the peer's initial limit is {}", inc, if dir == 0 { "Bi" } else { "Uni" }, opened, init));
                         return;
